@@ -4,7 +4,8 @@ from resolvelib import SILENT
 LATTICE_NAMES = ['Base', 'L', 'R', 'D', 'object', 'int', 'str', 'NoneType']
 # corpus indices by class (see resolvelib.CORPUS)
 INSTANCES = {'Base': [0, 1, 2, 3, 4], 'L': [1, 3, 4], 'R': [2, 3, 4], 'D': [3, 4], 'int': [5, 6, 7], 'str': [8, 9],
-             'object': list(range(12)), 'NoneType': [], 'bool': [7], 'float': [10]}
+             'object': list(range(12)), 'NoneType': [], 'bool': [7], 'float': [10],
+             'LL': [12, 14], 'E': [12], 'U': [13, 15], 'G': [13]}
 LITERAL = {5: 0, 6: 7, 7: True, 8: 'a', 9: 'bb', 10: 2.5}
 
 
@@ -197,6 +198,8 @@ def value_for(rng, ty):
     """corpus index (or None for Python None) that probably satisfies the type spec"""
     if rng.random() < 0.15:
         return rng.choice([None] + list(range(12)))
+    if isinstance(ty, list) and isinstance(ty[1], list):
+        ty = ['py', rng.choice(ty[1]), ty[2]]
     if isinstance(ty, list):
         inst = INSTANCES.get(ty[1], [])
         if ty[1] in ('Base', 'L', 'R', 'object') and rng.random() < 0.6:
